@@ -567,6 +567,14 @@ func c15Sessions(c *Ctx, emitted, emittedForms, emittedRedef string) {
 		{"v = func(a, ..) {m = {\"n\": len(..), 1: [a, -a]}; m.n + m[1][0]}", "println(v)", "println(v(1, 2, 3))", "dbl = macro(x) {quote(unquote(x) * 2)}", "println(v)", "println(dbl(v(2)))", "w = v", "println(w == v, w)"},
 		{"func cnt(n) {if n <= 0 {return 0} else {1 + cnt(n - 1)}}", "k = x => y => z => x + y + z", "println(cnt, k)", "un = macro(c, b) {quote(if !(unquote(c)) {unquote(b)})}", "println(un(false, k(1)(2)(3)))", "println(cnt(3), cnt, k(1))"},
 	}
+	// a macro call site that fails to expand (wrong number of arguments, a body that is not a quote) where the failure does not
+	// stop the script: absorbed by catch(), in a function never called, in the branch not taken; the uses after it expand
+	pinned = append(pinned,
+		[]string{"inc = macro(x) {quote(unquote(x) + 1)}", "r = catch(inc(1, 2))", "println(r.err, inc(41))", "println(inc(6))"},
+		[]string{"bad = macro(x) {1}", "ok = macro(x) {quote(unquote(x) * 2)}", "r = catch(bad(1))", "println(r.err, ok(21))", "println(ok(4))"},
+		[]string{"inc = macro(x) {quote(unquote(x) + 1)}", "f = func() {inc(1, 2)}", "println(inc(1))", "g = func() {inc(5)}", "println(g())"},
+		[]string{"inc = macro(x) {quote(unquote(x) + 1)}", "if false {inc()} else {println(inc(2))}", "println(inc(3))", "println(catch(inc()).err, inc(4))"},
+	)
 	// the same name defined again between uses (every use follows a definition): another macro template, a function
 	// that becomes a macro, a macro that becomes a function, a function whose body was expanded by the first definition
 	pinnedRedef := [][]string{
@@ -587,6 +595,44 @@ func c15Sessions(c *Ctx, emitted, emittedForms, emittedRedef string) {
 			}
 			for i, sp := range splits[len(stmts)] {
 				addCase(stmts, sp, i%2 == 0, "pinned", true, pi == 1)
+			}
+		}
+	}
+
+	// 3b. long flat scripts: what a parser accumulates over the statements of ONE input (nesting bookkeeping, positions) is
+	// only seen with thousands of statements; one script per (way a statement ends, way the next one starts)
+	{
+		starts := []string{"[v]", "(v)", "-v", "{1: v}", "+v", "v", "!true", "v++", "f(v)", "v = v + 1"}
+		ends := []string{"v = v + 1", "w = v * 1", "w = v < 1", "w = [v]", "w = f(v)", "v++", "w = (v)", "w = -v", "w = {1: v}[1]", "w = v"}
+		ne, ns := 3, 5 // quick: the ends that leave an operator's operand last x the starts that could continue an expression
+		if c.Thorough() {
+			ne, ns = len(ends), len(starts)
+		}
+		for _, e := range ends[:ne] {
+			for _, st := range starts[:ns] {
+				long := []string{"v = 0", "f = func(x) {x}", "w = 0"}
+				for i := 0; i < 5300; i++ {
+					long = append(long, e, st)
+				}
+				long = append(long, "println(v, w)")
+				// statements separated by newlines only (no `;`): where one statement ends is the parser's own decision
+				var chunks []string
+				for i := 0; i < len(long); i += 1000 {
+					chunks = append(chunks, strings.Join(long[i:min(i+1000, len(long))], "\n")+"\n")
+				}
+				b := c15RunInputs([]string{strings.Join(long, "\n") + "\n"}, false)
+				a := c15RunInputs(chunks, false)
+				c.Case(fmt.Sprint("session-long:", e, "|", st), true)
+				if b.Err || b.Panicked {
+					if !a.Err && !a.Panicked {
+						c.Fail("session-whole-fails-chunked-does-not", fmt.Sprintf("%d statements `%s` / `%s` separated by newlines fail as one input (%s) and succeed in chunks of 1000", len(long), e, st, clip(b.ErrMsg, 160)),
+							map[string]any{"check": "session-long", "end": e, "start": st})
+					}
+					continue
+				}
+				cs := c15SessCase{Stmts: []string{"(long script)", e, st}, Cuts: []int{1000}, Origin: "long", A: a, B: b}
+				ecs = append(ecs, equivCase{ID: len(cases), A: a.Equiv(), B: b.Equiv()})
+				cases = append(cases, cs)
 			}
 		}
 	}
